@@ -8,7 +8,7 @@ CHECKS["C02"] = (
     "exploration",
     "runtime monitoring: record-layer differential monitor (accept iff byte-identical to sender's next record) with snapshot/restore, plus connection-level MITM oracle",
     "Held on the executions observed: for each protection kind reached by a real handshake, thousands of adversarial transformations of captured records (bit flips incl. header, truncation, extension, splice, replay, swap, drop, reflection, other connection/sequence number, SSLv2 framing, TLS 1.3 inner-plaintext forgeries) are presented to the real receiver; the oracle demands acceptance exactly for the sender's next record and an integrity/decoding error otherwise; a connection-level MITM checks alert, closure and non-resumability. Known finding F7 (record-header version bytes unauthenticated below TLS 1.3) is reported, not hidden.",
-    "Trusts the harness snapshot of the read state (self-checked by re-presenting the honest record after every restore); python cipher back ends only; early-data trial decryption not exercised.",
+    "Trusts the harness snapshot of the read state (self-checked by re-presenting the honest record after every restore); python cipher back ends only; early-data trial decryption is exercised by offering early_data (forged records after the handshake, cumulative budget), not by sending real early data.",
     "DESIGN.md section 3, C02")
 CHECKS["C03"] = (
     "exploration",
